@@ -65,6 +65,7 @@ type H struct {
 	sessRepo map[int]string // public number -> repository it was created in
 	mon      *Monitors
 	lineNo   int
+	curRepo  string // repository named by the line being interpreted (cause labels of the monitors)
 	now      time.Time
 }
 
@@ -479,6 +480,10 @@ func (h *H) apply1(line string) (string, bool) {
 		return "bad-op", true
 	}
 	op, a := t[0], t[1:]
+	h.curRepo = ""
+	if len(a) > 0 && op != "NEW" && op != "DEF" {
+		h.curRepo = a[0]
+	}
 	if op != "NEW" && op != "DEF" && h.srv == nil {
 		h.newHistory(nil)
 	}
@@ -493,8 +498,15 @@ func (h *H) apply1(line string) (string, bool) {
 		if len(a) < 2 {
 			return "bad-op", true
 		}
-		raw := h.tk.buildBody(a[0], a[1], a[2:])
-		h.tk.reg(a[0], raw)
+		if _, known := h.tk.rawOf[a[0]]; !(known && strings.HasPrefix(a[0], "R(")) { // a twin keeps the bytes of the response document
+			raw := h.tk.buildBody(a[0], a[1], a[2:])
+			if v := kv(a[2:], "raw"); v != "" {
+				if b, err := base64.RawURLEncoding.DecodeString(v); err == nil {
+					raw = b
+				}
+			}
+			h.tk.reg(a[0], raw)
+		}
 		h.tk.defOf[a[0]] = line
 		return "def", true
 	case "UPOST":
